@@ -10,6 +10,9 @@ for l in open('/verif/properties.jsonl'):
     p = json.loads(l)
     if p['id'] == pid:
         break
+EXTRA = ''
+if tag != 'a':
+    EXTRA = ('This is a second round: earlier rounds already tried renaming private attributes, swapping list/deque/dict, another legal error code, stricter validation and changed logging. Prefer DIFFERENT kinds now, for example: changing WHEN things happen without changing what happens (deferring a delivery or a callback with loop.call_soon, batching several internal deliveries into one loop turn, an extra await/yield, resolving a future a tick earlier or later, emitting an event before instead of after an internal table update when no listener can tell); changing object identity or lifetime (returning a fresh object instead of a cached one, copying a buffer instead of slicing it, lazily creating a table on first use, dropping an empty table entry instead of keeping it); replacing an algorithm by an equivalent one (a loop by arithmetic, two passes by one, recursion by iteration); moving responsibility between layers (a check done in the caller instead of the callee) with the same outcome; making a synchronous internal helper asynchronous or vice versa behind an unchanged public API. Still: the property must provably hold and the whole suite must pass.\n')
 print(f"""You are helping to test a verification harness for the Python Bluetooth stack google/bumble. You have your own scratch git worktree of the repository at {wt} (work ONLY there; never touch /repo or /verif, and do not read anything under /verif). Interpreter: /venv/bin/python (run things as `cd {wt} && PYTHONPATH={wt} /venv/bin/python ...`; the test suite is `cd {wt} && PYTHONPATH={wt} /venv/bin/python -m pytest -q -p no:cacheprovider -n 8 tests`, 940 tests, all pass now; check `python -c "import bumble; print(bumble.__file__)"` really points into {wt}). No network. NEVER use `git stash` (the stash is shared by all worktrees of the repository and other agents work in sibling worktrees): to get back to the clean tree use `git diff > out/patchN.diff` then `git checkout -- .`, and `git apply out/patchN.diff` to re-apply.
 
 A property of the code base (this text is all you get):
@@ -23,7 +26,7 @@ Task: produce FOUR different, realistic changes to bumble's source (under {wt}/b
   - refactorings of internals: rename a private attribute / private method / local helper, split or inline a function, replace a data structure by an equivalent one (dict <-> OrderedDict, list <-> deque, set <-> dict keys), precompute or cache something safely, reorder statements that are independent;
   - legitimate alternative behaviour the property does not forbid: a different (still legal) error code or exception message for a refused or malformed input, stricter validation of MALFORMED input (rejecting what was previously tolerated garbage), a different log level or text, a different but valid choice of identifier / handle / CID allocation order, returning credits or acknowledgements a little earlier or later within what the protocol allows, an extra `await asyncio.sleep(0)` (yield to the event loop) in an async path, sending two independent messages in the other order, a different internal timeout value for something that never fires in normal operation;
   - robustness improvements: an extra guard for a state that cannot occur, catching and logging an exception where it used to propagate out of a callback for hostile input.
-Each change should be moderately sized (3-40 lines) and touch the mechanisms the property is about (not unrelated files). At least one of the four should be a behaviour-visible-but-legal change (second group), at least one an internal-representation refactoring that renames or restructures private state (first group).
+{EXTRA}Each change should be moderately sized (3-40 lines) and touch the mechanisms the property is about (not unrelated files). At least one of the four should be a behaviour-visible-but-legal change (second group), at least one an internal-representation refactoring that renames or restructures private state (first group).
 
 For each change i in (1..4) deliver, in {wt}/out/ (create it):
   - patch{{i}}.diff  : `git diff` of the change against the worktree's HEAD (apply one change at a time; `git checkout -- .` between them so each diff is independent)
